@@ -19,6 +19,13 @@
 (*             input file itself (the same string, another spelling of the   *)
 (*             path, a symbolic / hard link to it): rewriting a document in  *)
 (*             place                                                         *)
+(*   pre       (optional) what a -o path of its own holds when the command   *)
+(*             is given: "absent" / absent: nothing is there; "stale": a     *)
+(*             file with other, longer content (an earlier result)           *)
+(*   ofault    (optional) what is wrong with the -o path: "none" / absent:   *)
+(*             nothing; "nodir" | "isdir": it cannot be created (its         *)
+(*             directory does not exist / it is a directory); "full": it is  *)
+(*             created (opened) but the write fails (a full device)          *)
 (* lib : the result of the library interpreter on (program, selectors in     *)
 (*   order, inputs in order).  It is an INPUT of this module (uninterpreted):*)
 (*   outcome "ok" | "err", json "ok" | "err" | "na" (GetRootJson).           *)
@@ -41,6 +48,11 @@ cvars == <<cfg, pc, opened, lib, calls, stdout, stderr, outfile, status>>
 NoLib == [outcome |-> "na", json |-> "na"]
 StopOf(c) == IF "stop" \in DOMAIN c THEN c.stop ELSE "pool"
 AliasOf(c) == IF "alias" \in DOMAIN c THEN c.alias ELSE "none"
+PreOf(c) == IF "pre" \in DOMAIN c THEN c.pre ELSE "absent"
+OFaultOf(c) == IF "ofault" \in DOMAIN c THEN c.ofault ELSE "none"
+CreateFaults == {"nodir", "isdir"}
+WriteFaults == {"full"}
+OutFaults == CreateFaults \cup WriteFaults
 NoText == [chan |-> "none", bytes |-> <<>>]
 TextOf(c) == IF "text" \in DOMAIN c THEN c.text ELSE NoText
 \* texts that travel from the command line to the library / from the library to stdout and the -o file
@@ -60,8 +72,14 @@ Inputs(c) == IF c.nfiles = 0 THEN <<"stdin">> ELSE [i \in 1..c.nfiles |-> IF c.s
 Selectors(c) == [i \in 1..c.nsel |-> i]
 \* how many of the inputs the evaluator gets to read: a program that exits earlier never reads the rest
 NReads(c) == CASE StopOf(c) = "begin" -> 0 [] StopOf(c) = "in1" -> 1 [] StopOf(c) = "in2" -> 2 [] OTHER -> Len(Inputs(c))
-\* what the -o path holds when the command is given: nothing, or (in place) the input document
-OutBefore(c) == IF AliasOf(c) = "none" THEN "absent" ELSE "doc"
+\* what the -o path holds when the command is given: (in place) the input document; a directory; a device that
+\* keeps nothing ("sink": there is nothing to look at afterwards); an earlier result; nothing
+OutBefore(c) ==
+  CASE AliasOf(c) # "none" -> "doc"
+    [] OFaultOf(c) = "isdir" -> "dir"
+    [] OFaultOf(c) = "full" -> "sink"
+    [] PreOf(c) = "stale" -> "stale"
+    [] OTHER -> "absent"
 
 Start(c) ==
   /\ cfg = c /\ pc = "parse" /\ opened = <<>> /\ lib = NoLib /\ calls = <<>>
@@ -113,20 +131,36 @@ RefuseMultiInputJson ==
   /\ pc = "json" /\ cfg.out # "none" /\ Len(Inputs(cfg)) > 1
   /\ Fail("several inputs") /\ UNCHANGED <<cfg, opened, lib, calls, stdout, outfile>>
 
-WriteJson ==
+\* ev.GetRootJson(): the document is made BEFORE its destination is touched; -o - prints it
+SerialiseJson ==
   /\ pc = "json" /\ cfg.out # "none" /\ Len(Inputs(cfg)) <= 1
   /\ IF lib.json # "ok"
        THEN Fail("json") /\ UNCHANGED <<cfg, opened, lib, calls, stdout, outfile>>
-       ELSE /\ IF cfg.out = "dash"
-                 THEN stdout' = Append(stdout, "json") /\ UNCHANGED outfile
-                 ELSE outfile' = "json" /\ UNCHANGED stdout
-            /\ status' = 0 /\ pc' = "exit"
-            /\ UNCHANGED <<cfg, opened, lib, calls, stderr>>
+       ELSE IF cfg.out = "dash"
+              THEN /\ stdout' = Append(stdout, "json") /\ status' = 0 /\ pc' = "exit"
+                   /\ UNCHANGED <<cfg, opened, lib, calls, stderr, outfile>>
+              ELSE pc' = "create" /\ UNCHANGED <<cfg, opened, lib, calls, stdout, stderr, outfile, status>>
+
+\* os.Create(-o FILE): whatever FILE held is gone from here on (a device keeps nothing anyway)
+CreateOut ==
+  /\ pc = "create"
+  /\ IF OFaultOf(cfg) \in CreateFaults
+       THEN Fail("create") /\ UNCHANGED <<cfg, opened, lib, calls, stdout, outfile>>
+       ELSE /\ outfile' = (IF outfile = "sink" THEN "sink" ELSE "empty") /\ pc' = "write"
+            /\ UNCHANGED <<cfg, opened, lib, calls, stdout, stderr, status>>
+
+\* file.WriteString(document): a write that fails is an error of the run like any other
+WriteOut ==
+  /\ pc = "write"
+  /\ IF OFaultOf(cfg) \in WriteFaults
+       THEN Fail("write") /\ UNCHANGED <<cfg, opened, lib, calls, stdout, outfile>>
+       ELSE /\ outfile' = "json" /\ status' = 0 /\ pc' = "exit"
+            /\ UNCHANGED <<cfg, opened, lib, calls, stdout, stderr>>
 
 \* os.Exit(code): nothing happens afterwards
 ExitWith == pc = "exit" /\ UNCHANGED cvars
 
-CliNext(r) == ParseFlags \/ LoadProgram \/ OpenInput \/ Evaluate(r) \/ NoJson \/ RefuseMultiInputJson \/ WriteJson \/ ExitWith
+CliNext(r) == ParseFlags \/ LoadProgram \/ OpenInput \/ Evaluate(r) \/ NoJson \/ RefuseMultiInputJson \/ SerialiseJson \/ CreateOut \/ WriteOut \/ ExitWith
 
 -----------------------------------------------------------------------------
 (* The same wrapper as a function of (command line, library result): what    *)
@@ -137,10 +171,12 @@ ProgFault(c) == c.progVia = "file" /\ c.badProg
 Evaluated(c) == ~ProgFault(c) /\ ~InputFault(c)
 JsonWanted(c) == c.out # "none"
 JsonOk(c, r) == Len(Inputs(c)) <= 1 /\ r.json = "ok"
+\* the destination of the document can be created and written
+OutOk(c) == c.out # "path" \/ OFaultOf(c) = "none"
 
 Result(c, r) ==
   LET ev == Evaluated(c)
-      ok == ev /\ r.outcome = "ok" /\ (JsonWanted(c) => JsonOk(c, r))
+      ok == ev /\ r.outcome = "ok" /\ (JsonWanted(c) => (JsonOk(c, r) /\ OutOk(c)))
   IN [status0 |-> ok,
       diag |-> ~ok,
       stdout |-> (IF ev THEN <<"lib">> ELSE <<>>) \o (IF ok /\ c.out = "dash" THEN <<"json">> ELSE <<>>),
@@ -161,14 +197,14 @@ IsPrefix(a, b) == Len(a) <= Len(b) /\ SubSeq(b, 1, Len(a)) = a
 
 \* ---- properties of the transition system (checked in every reachable state)
 CliTypeOK ==
-  /\ pc \in {"parse", "load", "open", "json", "exit"}
+  /\ pc \in {"parse", "load", "open", "json", "create", "write", "exit"}
   /\ status \in {-1, 0, 1} /\ (status = -1 <=> pc # "exit")
-  /\ outfile \in {"absent", "doc", "json"}
+  /\ outfile \in {"absent", "stale", "doc", "dir", "sink", "empty", "json"}
   /\ Len(calls) <= 1
 
 \* status = 0 iff the library succeeded and the JSON step (if any) did
 StatusIffOk ==
-  pc = "exit" => (status = 0 <=> (Len(calls) = 1 /\ lib.outcome = "ok" /\ (JsonWanted(cfg) => JsonOk(cfg, lib))))
+  pc = "exit" => (status = 0 <=> (Len(calls) = 1 /\ lib.outcome = "ok" /\ (JsonWanted(cfg) => (JsonOk(cfg, lib) /\ OutOk(cfg)))))
 \* a failure always comes with a diagnostic, a success never writes one here
 DiagIffFail == pc = "exit" => (status # 0 <=> stderr # <<>>)
 \* stdout = the library's output, then the document iff -o - succeeded
@@ -193,7 +229,18 @@ OpensAll == (pc \in {"json", "exit"} /\ status # 1) => opened = Inputs(cfg)
 \* evaluation is over, and only then (rewriting the input in place works)
 ReadsOriginal ==
   /\ \A k \in 1..Len(calls) : \A i \in DOMAIN calls[k].read : calls[k].read[i] = "doc"
-  /\ outfile # OutBefore(cfg) => (pc = "exit" /\ status = 0 /\ Len(calls) = 1)
+  /\ outfile # OutBefore(cfg) => (pc \in {"write", "exit"} /\ status # 1 /\ Len(calls) = 1)
+\* -o FILE is touched only when there is a document to write: the evaluation succeeded AND the root could be
+\* serialised (what -o - would print exists).  A run that fails for any reason -- the program, the root has no JSON
+\* form, several inputs, an unusable input, FILE cannot be created -- leaves FILE as it found it: not created,
+\* an earlier result not truncated, the input (in place) not destroyed.  [A failed write is modelled on a device
+\* only: what a regular file holds after a write that failed half way is not fixed by anything.]
+TouchedLate ==
+  outfile # OutBefore(cfg) => (cfg.out = "path" /\ Len(calls) = 1 /\ lib.outcome = "ok" /\ lib.json = "ok" /\ Len(Inputs(cfg)) <= 1)
+FailureWritesNothing == (pc = "exit" /\ status = 1) => outfile = OutBefore(cfg)
+\* a failing create / write is reported: never status 0 with the document not in FILE
+OutFaultReported ==
+  (pc = "exit" /\ cfg.out = "path" /\ OFaultOf(cfg) # "none") => (status = 1 /\ stderr # <<>> /\ outfile = OutBefore(cfg))
 \* the library sees the texts of the command line byte for byte, however the program was given
 Transparent == \A k \in 1..Len(calls) : calls[k].text = TextOf(cfg)
 \* inputs are opened in order, none after a failure
@@ -226,17 +273,20 @@ LawOutPath(C) ==
   \A c \in C : \A r \in LibResults :
     LET d == Result([c EXCEPT !.out = "dash"], r) p == Result([c EXCEPT !.out = "path"], r)
         n == Result([c EXCEPT !.out = "none"], r) IN
-    /\ d.status0 = p.status0
     /\ p.stdout = n.stdout
-    /\ (p.outfile = "json") <=> (d.stdout = n.stdout \o <<"json">>)
-    /\ (p.outfile = OutBefore(c)) <=> (d.stdout = n.stdout)
+    /\ IF OFaultOf(c) = "none"
+         THEN /\ d.status0 = p.status0
+              /\ (p.outfile = "json") <=> (d.stdout = n.stdout \o <<"json">>)
+              \* also on every error path: -o - prints nothing more <=> FILE is as it was found
+              /\ (p.outfile = OutBefore([c EXCEPT !.out = "path"])) <=> (d.stdout = n.stdout)
+         ELSE ~p.status0 /\ p.diag /\ p.outfile = OutBefore([c EXCEPT !.out = "path"])
 \* the same on the byte stream: -o - prints every byte of the run without -o, then the document, then nothing
 LawOutBytes(C) ==
   \A c \in C : \A r \in LibResults :
     LET d == Result([c EXCEPT !.out = "dash"], r) p == Result([c EXCEPT !.out = "path"], r)
         n == Result([c EXCEPT !.out = "none"], r) IN
     /\ StreamOf(c, p.stdout) = StreamOf(c, n.stdout)
-    /\ StreamOf(c, d.stdout) = StreamOf(c, n.stdout) \o (IF p.outfile = "json" THEN <<"<json>">> ELSE <<>>)
+    /\ OFaultOf(c) = "none" => StreamOf(c, d.stdout) = StreamOf(c, n.stdout) \o (IF p.outfile = "json" THEN <<"<json>">> ELSE <<>>)
 \* what the wrapper decides does not depend on where the program stops: an unusable input or -o with several
 \* inputs is refused also when the program exits before it would have read that input
 StopsAll == {"never", "begin", "in1", "in2"}
@@ -256,10 +306,28 @@ LawInPlace(C) ==
       /\ a.status0 = b.status0 /\ a.diag = b.diag /\ a.stdout = b.stdout /\ a.calls = b.calls
       /\ (a.outfile = "json") <=> (b.outfile = "json")
       /\ a.outfile \in {"json", "doc"} /\ (a.outfile = "doc" <=> ~a.status0)
-\* every error, an unusable file, and -o with several inputs: non-zero and a diagnostic
+\* a -o FILE that cannot be created or written: whatever the run is, it fails with a diagnostic; everything else
+\* (what is evaluated, what the program prints) is as with a good FILE, and a run that fails anyway fails alike
+LawOutFault(C) ==
+  \A c \in C : \A r \in LibResults : \A f \in OutFaults :
+    ("ofault" \in DOMAIN c /\ c.ofault = "none" /\ c.out = "path" /\ AliasOf(c) = "none" /\ PreOf(c) = "absent") =>
+      LET a == Result(c, r) b == Result([c EXCEPT !.ofault = f], r) IN
+      /\ ~b.status0 /\ b.diag /\ b.stdout = a.stdout /\ b.calls = a.calls
+      /\ b.outfile = OutBefore([c EXCEPT !.ofault = f])
+\* what FILE held before does not matter: same status, same output, and FILE holds the document or what it held
+LawPre(C) ==
+  \A c \in C : \A r \in LibResults :
+    ("pre" \in DOMAIN c /\ c.pre = "stale") =>
+      LET a == Result(c, r) b == Result([c EXCEPT !.pre = "absent"], r) IN
+      /\ a.status0 = b.status0 /\ a.diag = b.diag /\ a.stdout = b.stdout /\ a.calls = b.calls
+      /\ (a.outfile = "json") <=> (b.outfile = "json")
+      /\ a.outfile \in {"json", "stale"} /\ (a.outfile = "stale" <=> ~a.status0)
+\* every error, an unusable file, -o with several inputs, and a -o FILE that cannot be created or written:
+\* non-zero and a diagnostic
 LawErrors(C) ==
   \A c \in C : \A r \in LibResults :
     LET x == Result(c, r) IN
-    /\ (ProgFault(c) \/ InputFault(c) \/ r.outcome = "err" \/ (JsonWanted(c) /\ c.nfiles > 1)) => (~x.status0 /\ x.diag)
+    /\ (ProgFault(c) \/ InputFault(c) \/ r.outcome = "err" \/ (JsonWanted(c) /\ c.nfiles > 1) \/ (JsonWanted(c) /\ r.json # "ok")
+        \/ (c.out = "path" /\ OFaultOf(c) # "none")) => (~x.status0 /\ x.diag)
     /\ x.status0 <=> ~x.diag
 =============================================================================
